@@ -135,7 +135,7 @@ T = {
  "C02-r2m1": ("C02", "document(): early return after 'Unexpected <EOF>' skips the final push_ignored()", "a non-empty input without any definition (only white space, comments, commas, lexer-error fragments)", ""),
  "C02-r2m2": ("C02", "lexer ExponentIndicator error carries only the offending character; the cursor stays at the start of the number", "`1ex`: an exponent marker directly followed by a character that is neither digit nor sign", ""),
  "C09-r2m1": ("C09", "\\uXXXX escape of control characters formatted in decimal (same slip as C08-r2m2, written independently)", "quoted string containing U+000B or U+000E..U+001F", "C09 alphabet: U+001F"),
- "C09-r2m2": ("C09", "can_be_block_string: blank lines take part in the common indent (filter_map became map)", "three lines, every non-blank line indented, an empty interior line: ` a\\n\\n a`", ""),
+ "C09-r2m2": ("C09", "can_be_block_string: blank lines take part in the common indent (filter_map became map)", "three lines, every non-blank line indented, an empty interior line: ` a\\n\\n a`", "thorough tier caught it; C09 paragraph family (2..=4 lines from a line menu) added, so the quick tier does too"),
  "C33-m2": ("C33", "collect_fields: a fragment spread's fields replace nothing but are not merged into an already collected key", "same composite response key twice, the later occurrence from a named fragment with an extra sub-field", ""),
 }
 
